@@ -23,6 +23,7 @@ def config(F, which):
         need = {"stream", "sink", "handle", "buffered_item"}
         cfg = pollai.Config(body, adt, {"sink"}, {"buffered_item": lambda o: True}, final_empty=("buffered_item",),
                             send_requires_empty={"sink": "buffered_item"})
+        cfg.store_every_item = {"stream"}
     else:
         need = {"server", "stream", "sink", "handle", "buffered_req", "buffered_rep", "buffered_err"}
         cfg = pollai.Config(body, adt, {"sink", "server.0.0"},
